@@ -2,14 +2,20 @@
 Driver for C06.  Request line:
   v=<10|20|30|31> op=<add|sub|mul|div|idiv|mod|neg|pos|abs|floor|ceiling|round1|round|rhe> a=<val> b=<val|_> p=<int|_>
 values:  i:<int>   d:<coefficient>:<scale>   D:<num>/<den> | D:NaN | D:INF | D:-INF | D:0 | D:-0   F:… (xs:float)
-Answer:  model=<res> spec=<res> flags=<comma separated | _>
-results: i:<n>  d:<num>/<den>  D:<num>/<den>|D:NaN|…  F:…  ERR:<code>
+         S:<code points separated by '.'>  (a string operand, XPath 1.0 parser only; `S:` = empty string)
+Answer:  model=<res> spec=<res> specI=<res|_> flags=<comma separated | _>
+results: i:<n>  d:<num>/<den>  D:<num>/<den>|D:NaN|…  F:…  ERR:<code>;  for v=10: N:<num>/<den>|N:NaN|… (the
+         XPath 1.0 number the result denotes, type tag dropped)
+spec   = F&O result with the decimal context (28 digits, half-even) applied to xs:decimal results
+specI  = for xs:float-typed operations: the F&O result computed with the rounding `implR` (binary64 + clamp)
 flags (trigger predicates computed from the input only):
-  F06c  an xs:float is involved and an operand or the exact result is not a binary32 value kept by `Float`
+  F06c  xs:float involved and an operand or the exact result is not a binary32 value kept by `Float`
   F06t  div/mod special-value branch whose result is typed xs:double / left unpromoted
   F06x  XPath 1.0: finite mod infinite gives NaN
   F06p  fn:round / round-half-to-even leave the 28-digit decimal context
-  idef  decimal result needs more than 28 digits (implementation-defined precision: no spec comparison)
+  F06v  XPath 1.0: integer/decimal literals computed exactly, value differs from IEEE arithmetic
+  F06s  XPath 1.0: string→number conversion differs from number() (exponent, '+', INF, Unicode space)
+  idef  idiv/mod on decimals whose quotient has more than 28 digits (no spec comparison)
   big   xs:double idiv with |quotient| ≥ 2^51 (Python's float floor division is not exact there)
 The model is run with the concrete round-to-nearest-even `FOArith.ieee` for `R`.
 -/
@@ -40,6 +46,13 @@ def parseNum (s : String) : Option Num :=
   | ["F", d] => (parseDbl d).map .flt
   | _ => none
 
+def parseOpnd (s : String) : Option Opnd :=
+  if s.startsWith "S:" then
+    let body := (s.drop 2).toString
+    if body == "" then some (.str [])
+    else (body.splitOn ".").mapM (fun t => (nat? t).map Char.ofNat) |>.map .str
+  else (parseNum s).map .num
+
 def showRat (q : Rat) : String := s!"{q.num}/{q.den}"
 
 def showDbl : Dbl → String
@@ -58,6 +71,10 @@ def showErr : Err → String
 
 def showRes : Except Err XVal → String
   | .ok v => showX v
+  | .error e => showErr e
+
+def showN : Except Err XVal → String
+  | .ok v => s!"N:{showDbl v.num10}"
   | .error e => showErr e
 
 def parseVer (s : String) : Option Ver :=
@@ -79,30 +96,67 @@ def flagsStr (l : List (Bool × String)) : String :=
   let on := l.filterMap fun (b, s) => if b then some s else none
   if on.isEmpty then "_" else ",".intercalate on
 
+/-- `Float.__new__` applied to an xs:float result (idempotent on everything the code produces) -/
+def clampX : XVal → XVal
+  | .float d => .float (mkFloat d)
+  | v => v
+
+def answer10 (R : Rounding) (fs : List (String × String)) : String :=
+  let opS := field fs "op"
+  match parseOpnd (field fs "a") with
+  | none => "bad-a"
+  | some a =>
+    match binOp? opS, parseOpnd (field fs "b") with
+    | some op, some b =>
+      let m := model10Bin R op a b
+      let s := spec10Bin R op (absOpnd a) (absOpnd b)
+      let fl := flagsStr [
+        (trigF06v_bin R op a b, "F06v"), (trigF06s R a || trigF06s R b, "F06s"),
+        (trigF06x R .v10 op (conv10 R a) (conv10 R b), "F06x")]
+      s!"model={showN (m.map absNum)} spec={showN s} specI=_ flags={fl}"
+    | some _, none => "bad-b"
+    | none, _ =>
+      match unOp? opS 0 with
+      | none => "bad-op"
+      | some op =>
+        let m := model10Un R op a
+        let s := spec10Un R op (absOpnd a)
+        let fl := flagsStr [(trigF06v_un R op a, "F06v"), (trigF06s R a, "F06s"),
+          (trigF06p op (toDbl10 R (conv10 R a)), "F06p")]
+        s!"model={showN (.ok (absNum m))} spec={showN (.ok s)} specI=_ flags={fl}"
+
 def answer (line : String) : String :=
   let fs := fields line
   let R := EPV.FOArith.ieee
-  match parseVer (field fs "v"), parseNum (field fs "a") with
-  | some v, some a =>
-    let opS := field fs "op"
-    let p : Int := (int? (field fs "p")).getD 0
-    match binOp? opS, parseNum (field fs "b") with
-    | some op, some b =>
-      let m := modelBin R v op a b
-      let s := specBin R op (absNum a) (absNum b)
-      let fl := flagsStr [
-        (trigF06c_bin op a b, "F06c"), (trigF06t R v op a b, "F06t"), (trigF06x R v op a b, "F06x"),
-        (trigIdef_bin op a b, "idef"), (trigBig R op a b, "big")]
-      s!"model={showRes (m.map absNum)} spec={showRes s} flags={fl}"
-    | some _, none => "bad-b"
-    | none, _ =>
-      match unOp? opS p with
-      | none => "bad-op"
-      | some op =>
-        let m := modelUn R v op a
-        let s := specUn R op (absNum a)
-        let fl := flagsStr [(trigF06c_un op a, "F06c"), (trigF06p op a, "F06p"), (trigIdef_un op a, "idef")]
-        s!"model={showX (absNum m)} spec={showX s} flags={fl}"
-  | _, _ => "bad-line"
+  match parseVer (field fs "v") with
+  | none => "bad-line"
+  | some .v10 => answer10 R fs
+  | some v =>
+    match parseNum (field fs "a") with
+    | none => "bad-a"
+    | some a =>
+      let opS := field fs "op"
+      let p : Int := (int? (field fs "p")).getD 0
+      match binOp? opS, parseNum (field fs "b") with
+      | some op, some b =>
+        let m := modelBin R v op a b
+        let s := (specBin R op (absNum a) (absNum b)).map ctxDec
+        let si := if floatTyped a b then showRes ((specBin (implR R) op (absNum a) (absNum b)).map clampX) else "_"
+        let fl := flagsStr [
+          (trigF06c_bin op a b, "F06c"), (trigF06t R v op a b, "F06t"), (trigF06x R v op a b, "F06x"),
+          (trigQuot28 op a b, "idef"), (trigBig R op a b, "big")]
+        s!"model={showRes (m.map absNum)} spec={showRes s} specI={si} flags={fl}"
+      | some _, none => "bad-b"
+      | none, _ =>
+        match unOp? opS p with
+        | none => "bad-op"
+        | some op =>
+          let m := modelUn R v op a
+          -- the decimal context applies to the arithmetic `-x`, `+x`, abs(x); floor/ceiling build an exact Decimal
+          let s0 := specUn R op (absNum a)
+          let s := match op with | .neg | .pos | .abs => ctxDec s0 | _ => s0
+          let si := if isFlt a then showX (clampX (specUn (implR R) op (absNum a))) else "_"
+          let fl := flagsStr [(trigF06c_un op a, "F06c"), (trigF06p op a, "F06p")]
+          s!"model={showX (absNum m)} spec={showX s} specI={si} flags={fl}"
 
 def main : IO Unit := mainLoop answer
